@@ -336,6 +336,10 @@ func (rn *Runner) Run() {
 			rn.runAdvThroughClient(cfg)
 			break
 		}
+		if sc.Prior == "peer" {
+			rn.runAdvPeer()
+			break
+		}
 		if sc.Prior == "authobj" || sc.Prior == "authobjok" {
 			rn.runAdvSameAuthObject(cfg, sc.Prior == "authobjok")
 			break
@@ -453,6 +457,93 @@ func (rn *Runner) runAdvSameAuthObject(cfg refsmtp.Config, firstOK bool) {
 	r.Emit("ret", "ok", aerr == nil, "text", clip(aerr))
 	_ = c2.Close()
 	srv2.Wait(10 * time.Second)
+}
+
+// runAdvPeer: two exchanges of the same account run in one process, interleaved step by step (the Auth objects are driven
+// directly, as smtp.Client.Auth drives them: Start, then Next with the decoded server messages). Exchange A has answered its
+// server-first when exchange B - same lengths throughout - does the same; then the server of A presents the genuine signature
+// of exchange B. It is not the signature of the running exchange: A must refuse it.
+func (rn *Runner) runAdvPeer() {
+	sc, r := rn.Sc, rn.Rec
+	h := sasl.HashFor(sc.Mech)
+	salt := []byte("adv-salt-" + fmt.Sprint(rn.T))
+	type side struct {
+		auth                    smtp.Auth
+		cfBare, srvFirst, cfWO string
+	}
+	step := func(x *side, tag string, record bool) error {
+		if _, _, err := x.auth.Start(&smtp.ServerInfo{Name: "mail.example.test", TLS: false, Auth: []string{sc.Mech}}); err != nil {
+			return fmt.Errorf("%s Start: %w", tag, err)
+		}
+		cf, err := x.auth.Next([]byte{}, true) // the empty challenge: the client sends its first message
+		if err != nil {
+			return fmt.Errorf("%s client-first: %w", tag, err)
+		}
+		parts := strings.SplitN(string(cf), ",", 3)
+		if len(parts) != 3 {
+			return fmt.Errorf("%s client-first malformed: %q", tag, cf)
+		}
+		x.cfBare = parts[2]
+		nonce := ""
+		for _, f := range strings.Split(x.cfBare, ",") {
+			if strings.HasPrefix(f, "r=") {
+				nonce = f[2:]
+			}
+		}
+		if record {
+			r.Emit("srv", "sym", "empty", "firstValid", false, "finalValid", false)
+			r.Emit("cli", "kind", "first", "nonce", nonce)
+		}
+		x.srvFirst = fmt.Sprintf("r=%sSrvExt%06d,s=%s,i=64", nonce, rn.T%1000000, base64.StdEncoding.EncodeToString(salt))
+		if record {
+			r.Emit("srv", "sym", "validFirst", "firstValid", true, "finalValid", false)
+		}
+		fin, err := x.auth.Next([]byte(x.srvFirst), true)
+		if err != nil {
+			return fmt.Errorf("%s client-final: %w", tag, err)
+		}
+		k := strings.LastIndex(string(fin), ",p=")
+		if k < 0 {
+			return fmt.Errorf("%s client-final malformed", tag)
+		}
+		x.cfWO = string(fin)[:k]
+		if record {
+			r.Emit("cli", "kind", "final")
+		}
+		return nil
+	}
+	a := &side{auth: mechAuth(sc.Mech, advUser, advPass, nil)}
+	b := &side{auth: mechAuth(sc.Mech, advUser, advPass, nil)}
+	if err := step(a, "A", true); err != nil {
+		rn.Infra = err
+		return
+	}
+	if err := step(b, "B", false); err != nil {
+		rn.Infra = err
+		return
+	}
+	if len(a.cfBare)+len(a.srvFirst)+len(a.cfWO) != len(b.cfBare)+len(b.srvFirst)+len(b.cfWO) {
+		rn.Infra = fmt.Errorf("peer exchanges differ in length")
+		return
+	}
+	peerSig := sasl.ServerSignatureFor(h, advPass, salt, 64, b.cfBare+","+b.srvFirst+","+b.cfWO)
+	ownSig := sasl.ServerSignatureFor(h, advPass, salt, 64, a.cfBare+","+a.srvFirst+","+a.cfWO)
+	r.Emit("srv", "sym", "peerFinal", "firstValid", false, "finalValid", peerSig == ownSig)
+	resp, err := a.auth.Next([]byte(peerSig), true)
+	ok := false
+	if err == nil {
+		if len(resp) == 0 {
+			r.Emit("cli", "kind", "ack")
+		} else {
+			r.Emit("cli", "kind", "other")
+		}
+		r.Emit("srv", "sym", "ok235", "firstValid", false, "finalValid", false)
+		_, err = a.auth.Next(nil, false)
+		ok = err == nil
+	} else {
+		r.Emit("cli", "kind", "abort")
+	}
+	r.Emit("ret", "ok", ok, "text", clip(err))
 }
 
 func clip(err error) string {
